@@ -84,4 +84,147 @@ theorem C16_fn_put (f : Key → String) (hf : ∀ a b, f a = f b → a = b)
     · have hv' : ¬ v0 + 1 ≤ 18446744073709551615 := by omega
       simp [hv, hv', Agree, Rs.overflow, bind, Except.bind]
 
+/-! ### `put_batch` (check loop over a staged map, then the inserts) and `delete` (round 8)
+
+The generated body runs the check loop as `Rs.loopM` (early `return Err(VersionMismatch)`, `continue` for an equal
+entry) over a *staged* string-keyed map and, only if the loop ends normally, folds the inserts over `self.data`.
+The model (`Mem.batch`) folds `Mem.checkStep` over `Option Tab` and then applies `insertAll`.  `SimSt` relates the
+two staged maps; the batch handed to the code is the model's batch with every key renamed by `f`. -/
+
+/-- the staged map of the code agrees with the model's staged table on every model key -/
+def SimSt (f : Key → String) (staged : List (String × Rec)) (st : Tab) : Prop :=
+  ∀ k, Rs.smapGet staged (f k) = lookup st k
+
+/-- one iteration of the code's check loop against `Mem.checkStep` -/
+def StepRel (f : Key → String) : Rs.M (Rs.Flow (List (String × Rec)) MemoryKVVStore) → Option Tab → Prop
+  | .ok (.next staged'), some st' => SimSt f staged' st'
+  | .error (.err tag), none => tag = "Error::VersionMismatch"
+  | _, _ => False
+
+/-- the whole check loop against the fold of `Mem.checkStep` -/
+def LoopRel (f : Key → String) : Rs.M ((List (String × Rec)) ⊕ MemoryKVVStore) → Option Tab → Prop
+  | .ok (.inl staged'), some st' => SimSt f staged' st'
+  | .error (.err tag), none => tag = "Error::VersionMismatch"
+  | _, _ => False
+
+theorem check_loop (f : Key → String) (t : Tab)
+    (b : List (String × Rec) → String × Rec → Rs.M (Rs.Flow (List (String × Rec)) MemoryKVVStore))
+    (hb : ∀ staged st e, SimSt f staged st → StepRel f (b staged (f e.1, e.2)) (Mem.checkStep t (some st) e)) :
+    ∀ (es : List (Key × Rec)) (staged : List (String × Rec)) (st : Tab), SimSt f staged st →
+      LoopRel f (Rs.loopM (es.map (fun e => (f e.1, e.2))) staged b) (es.foldl (Mem.checkStep t) (some st)) := by
+  intro es
+  induction es with
+  | nil => intro staged st h; exact h
+  | cons e es ih =>
+    intro staged st h
+    have hs := hb staged st e h
+    simp only [List.map_cons, List.foldl_cons, Rs.loopM]
+    cases hr : b staged (f e.1, e.2) with
+    | error err =>
+      rw [hr] at hs
+      cases hc : Mem.checkStep t (some st) e with
+      | none =>
+        rw [hc] at hs
+        rw [Mem.foldl_checkStep_none]
+        cases err <;> simp_all [StepRel, LoopRel, bind, Except.bind]
+      | some st' => rw [hc] at hs; cases err <;> simp [StepRel] at hs
+    | ok fl =>
+      rw [hr] at hs
+      cases hc : Mem.checkStep t (some st) e with
+      | none => rw [hc] at hs; cases fl <;> simp [StepRel] at hs
+      | some st' =>
+        rw [hc] at hs
+        cases fl with
+        | next staged' =>
+          have h' : SimSt f staged' st' := hs
+          simpa [bind, Except.bind] using ih staged' st' h'
+        | brk _ => simp [StepRel] at hs
+        | ret _ => simp [StepRel] at hs
+
+/-- the insert loop of `put_batch` keeps the two maps in agreement -/
+theorem insert_loop (f : Key → String) (hf : ∀ a b, f a = f b → a = b) :
+    ∀ (es : List (Key × Rec)) (s : MemoryKVVStore) (t : Tab), Sim f s t →
+      Sim f (List.foldl (fun (self : MemoryKVVStore) (kvv : String × Rec) =>
+               { self with data := Rs.smapInsert self.data kvv.1 kvv.2 }) s (es.map (fun e => (f e.1, e.2))))
+            (insertAll t es) := by
+  intro es
+  induction es with
+  | nil => intro s t h; exact h
+  | cons e es ih =>
+    intro s t h
+    simp only [List.map_cons, List.foldl_cons, insertAll_cons]
+    apply ih
+    intro k'
+    simp only [Rs.smapGet_insert, lookup_insert, h k']
+    by_cases e' : e.1 = k'
+    · simp [e']
+    · have : ¬ f e.1 = f k' := fun he => e' (hf _ _ he)
+      simp [e', this]
+
+/-- the two loops of `put_batch` for any loop body that simulates `Mem.checkStep` -/
+theorem batch_core (f : Key → String) (hf : ∀ a b, f a = f b → a = b)
+    (s : MemoryKVVStore) (t : Tab) (h : Sim f s t) (es : List (Key × Rec))
+    (b : List (String × Rec) → String × Rec → Rs.M (Rs.Flow (List (String × Rec)) MemoryKVVStore))
+    (hb : ∀ staged st e, SimSt f staged st → StepRel f (b staged (f e.1, e.2)) (Mem.checkStep t (some st) e)) :
+    Agree f
+      (Rs.loopM (es.map (fun e => (f e.1, e.2))) [] b >>= fun lr =>
+        match lr with
+        | .inl _ => pure (List.foldl (fun (self : MemoryKVVStore) (kvv : String × Rec) =>
+                      { self with data := Rs.smapInsert self.data kvv.1 kvv.2 }) s (es.map (fun e => (f e.1, e.2))))
+        | .inr rv => pure rv)
+      (match es.foldl (Mem.checkStep t) (some []) with
+       | some _ => (insertAll t es, .ok)
+       | none => (t, .mismatch)) := by
+  have hloop := check_loop f t b hb es [] [] (fun _ => rfl)
+  revert hloop
+  generalize Rs.loopM _ _ _ = r
+  cases hc : es.foldl (Mem.checkStep t) (some []) with
+  | none =>
+    intro hloop
+    match r, hloop with
+    | .error (.err tag), hl => simp [LoopRel] at hl; simp [Agree, hl, bind, Except.bind]
+  | some st' =>
+    intro hloop
+    match r, hloop with
+    | .ok (.inl staged'), _ =>
+      simp only [Rs.bind_ok, Rs.pure_eq, Agree]
+      exact insert_loop f hf es s t h
+
+/-- `put_batch`: the same batches are refused (`Err(VersionMismatch)`, nothing written: `Mem.batch` returns `t`), and an
+    accepted batch leaves the two maps in agreement -/
+theorem C16_fn_put_batch (f : Key → String) (hf : ∀ a b, f a = f b → a = b)
+    (s : MemoryKVVStore) (t : Tab) (h : Sim f s t) (es : List (Key × Rec)) :
+    Agree f (s.put_batch (es.map (fun e => (f e.1, e.2)))) (Mem.batch t es) := by
+  unfold MemoryKVVStore.put_batch Mem.batch
+  refine batch_core f hf s t h es _ ?_
+  intro staged st e hst
+  have ho : Option.or (Rs.smapGet staged (f e.1)) (Rs.smapGet s.data (f e.1)) = olookup st t e.1 := by
+    rw [hst e.1, h e.1]; unfold olookup; cases lookup st e.1 <;> rfl
+  have hins : SimSt f (Rs.smapInsert staged (f e.1) e.2) (insert st e.1 e.2) := by
+    intro k'
+    simp only [Rs.smapGet_insert, lookup_insert, hst k']
+    by_cases e' : e.1 = k'
+    · simp [e']
+    · have : ¬ f e.1 = f k' := fun he => e' (hf _ _ he)
+      simp [e', this]
+  simp only [Mem.checkStep, ho]
+  cases hl : olookup st t e.1 with
+  | none => simpa [StepRel] using hins
+  | some r =>
+    obtain ⟨v0, x0⟩ := r
+    by_cases h1 : e.2.1 < v0
+    · simp [StepRel, h1, Rs.fail, bind, Except.bind]
+    · by_cases h2 : e.2.1 = v0
+      · by_cases h3 : x0 = e.2.2
+        · simpa [StepRel, h1, h2, h3] using hst
+        · simp [StepRel, h2, h3, Rs.fail, bind, Except.bind]
+      · simpa [StepRel, h1, h2] using hins
+
+/-- `delete(key)` is `put(key, [])` (an empty value at the next version): same outcome as the model's `put` -/
+theorem C16_fn_delete (f : Key → String) (hf : ∀ a b, f a = f b → a = b)
+    (s : MemoryKVVStore) (t : Tab) (h : Sim f s t) (k : Key) :
+    Agree f (s.delete (f k)) (Mem.put t k []) := by
+  unfold MemoryKVVStore.delete
+  exact C16_fn_put f hf s t h k []
+
 end VlsModel.Props.C16Fn
